@@ -57,6 +57,7 @@ def run(ctx, R, tier):
     prev(F, R)
     finish(F, R)
     set_rule(F, R)
+    set_unconditional(F, R)
     sib(F, R)
 
 
@@ -164,6 +165,22 @@ def set_rule(F, R):
     sg = [(bb, s) for bb, si, s in b.stmts() if s['k'] == 'assign' and pretty_place(b, s['lhs']) == '(*self).stagnant']
     R.check(len(sg) == 1 and describe_rv(b, sg[0][1]['rv']) == 'False', 'B.C06.set', 'stagnant', 'Parameter::set does not clear stagnant',
             detail='stagnant = false')
+
+
+def set_unconditional(F, R, rule='B.C06.set'):
+    """A set command always replaces the pending transition: in Parameter::set and Tweener::set the store of the new
+    Tweening state lies on every path (a command is never dropped because of the current value)."""
+    for path, key in ((P + '::set', 'Parameter::set'), ('modulator::tweener::Tweener::set', 'Tweener::set')):
+        b = F.body(path)
+        if not R.check(b is not None, rule, 'anchor:' + key, '%s not found' % path):
+            continue
+        st = [bb for bb, si, s in b.stmts() if s['k'] == 'assign' and pretty_place(b, s['lhs']) == '(*self).state']
+        ok = len(st) == 1 and all(b.dominates(st[0], r) for r in b.return_blocks())
+        d = describe_rv(b, [s for bb, si, s in b.stmts() if s['k'] == 'assign' and pretty_place(b, s['lhs']) == '(*self).state'][0]['rv'], depth=3) if st else '?'
+        ok = ok and 'State::Tweening(' in d
+        R.check(ok, rule, key + ':unconditional',
+                '%s does not start the new transition on every path (a set command can be dropped, e.g. when the target equals the current '
+                'value while an earlier transition is still pending)' % path, detail={'state': d[:100]}, where=b.file)
 
 
 def timing_features(b):
